@@ -246,6 +246,7 @@ STATEFUL = {
     "cog.cog8.Cog8": ("pure", "cog8", {"geometry": 2, "rho0": 2.5}),
     "kenamond.kenamond2.Kenamond2": ("pure", "kenamond2", {"R": 2.5, "D1": 2.5}),
     "blake.blake.Blake": ("pure", "blake", {"pressure_scale": 2.0e6, "cavity_radius": 0.08, "lame_mod": 30.0e9, "shear_mod": 20.0e9}),
+    "ep_piston.ep_piston.EPpiston": ("pure", "ep_piston", {"up": 0.02, "model": "hypo"}),
     "rmtv.rmtv.Rmtv": ("glob", "rmtv.timmes", {"rf": 0.7}),
     "suolson.suolson.SuOlson": ("glob", "suolson.timmes", {"opac": 2.0, "trad_bc_ev": 500.0}),
     "riemann.ep_riemann.IGEOS_Solver": ("attr", "riemann", {"ul": 0.5, "gr": 5.0 / 3.0, "pr": 0.2}),
@@ -271,3 +272,11 @@ GRID_DEPENDENT = {"sedov.sedov.Sedov", "sedov.sedov.Sedov@vacuum", "riemann.ep_r
                   "riemann.ep_riemann.GenEOS_Solver",
                   "riemann2D_2section_steadystate.ep_riemann2D_2section_steadystate.IGEOS_Solver"}
 BBOX_TOL = {1: 1.0e-10, 2: 1.0e-3}
+# public helper methods that only compute (op "Query" of spec/Interp.tla): class -> {query id: (method, args)}
+QUERIES = {
+    "ep_piston.ep_piston.EPpiston": {1: ("Plastic_Residual", (0.45,)), 2: ("Gruneisen", (2.79, 2.0, 0.533, 1.34, 3.1, 0.02))},
+    "sedov.sedov.Sedov": {1: ("sedov_funcs_standard", (0.3,)), 2: ("sed_lam_min", (0.3,))},
+    "sedov.sedov.Sedov@vacuum": {1: ("sedov_funcs_standard", (0.3,)), 2: ("sed_lam_min", (0.3,))},
+    "blake.blake.Blake": {},
+    "sdrz.sdrz.SteadyDetonationReactionZone": {1: ("run_tvec", ([0.0, 0.4, 1.3],)), 2: ("run_tvec", ([0.0, 2.0],))},
+}
